@@ -61,7 +61,11 @@ func actorName(m *refmodel.Model, tx int) string {
 
 func (s *seqRun) fail(class, ctx, detail string) {
 	if s.viol == nil {
-		s.viol = &Violation{Class: class, Signature: s.c.Prop + "|" + class + "|" + ctx, Detail: detail}
+		sig := s.c.Prop + "|" + class + "|" + ctx
+		if s.c.Client != "" && s.c.Client != "inline" && s.c.Client != "grpcreal" {
+			sig += ",client=" + s.c.Client
+		}
+		s.viol = &Violation{Class: class, Signature: sig, Detail: detail}
 	}
 }
 
